@@ -446,6 +446,16 @@ func c16Minimum(p *core.Prog, r *core.Run, noc *ssa.Function) {
 			}
 			return
 		}
+		// min(running value, record's TTL): the comparison and the update in one
+		if c, ok := v.(*ssa.Call); ok && len(c.Call.Args) == 2 {
+			if bi, isB := c.Call.Value.(*ssa.Builtin); isB && bi.Name() == "min" {
+				a0, a1 := c.Call.Args[0], c.Call.Args[1]
+				if a0 == ssa.Value(ttlPhi) && isTTL(p.X(a1)) || a1 == ssa.Value(ttlPhi) && isTTL(p.X(a0)) {
+					cmpBlocks = append(cmpBlocks, c.Block())
+					return
+				}
+			}
+		}
 		x := p.X(v)
 		if !isTTL(x) {
 			okAll = false
